@@ -69,7 +69,7 @@ type VerifTicket struct {
 	IssuedAt int64
 }
 
-func verifStore(cf base.ClientFactory) (*ssTicketStore, error) {
+func verifHsStore(cf base.ClientFactory) (*ssTicketStore, error) {
 	f, ok := cf.(*ssClientFactory)
 	if !ok {
 		return nil, fmt.Errorf("not a scramblesuit client factory")
@@ -79,7 +79,7 @@ func verifStore(cf base.ClientFactory) (*ssTicketStore, error) {
 
 // VerifTicketStoreDump returns the in-memory ticket store sorted by address.
 func VerifTicketStoreDump(cf base.ClientFactory) ([]VerifTicket, error) {
-	s, err := verifStore(cf)
+	s, err := verifHsStore(cf)
 	if err != nil {
 		return nil, err
 	}
@@ -100,7 +100,7 @@ func VerifTicketStoreDump(cf base.ClientFactory) ([]VerifTicket, error) {
 // delta seconds into the past (test scaffolding for the expiry branch).  It
 // reports whether a ticket was present.  The file is not rewritten.
 func VerifTicketStoreAge(cf base.ClientFactory, addr string, delta int64) (bool, error) {
-	s, err := verifStore(cf)
+	s, err := verifHsStore(cf)
 	if err != nil {
 		return false, err
 	}
